@@ -268,7 +268,7 @@ def gen_specs(rng):
     specs.append(s)
   # *_first: the first positional argument is not a Module but a bare Variable / a dict of Variables (standalone, or - 'shared' -
   # also reachable from the next argument)
-  alias = rng.choice(['none', 'none', 'none', 'same_twice', 'sub_object', 'var_first', 'shared_var_first', 'dict_first'])
+  alias = rng.choice(['none', 'none', 'none', 'same_twice', 'sub_object', 'var_first', 'shared_var_first', 'dict_first', 'var_last', 'dict_last'])
   return specs, alias
 
 
@@ -281,17 +281,20 @@ def build_args(specs, alias):
   elif alias == 'sub_object':
     mps = modules_by_path(roots[0])
     roots.append(mps[-1][1])
-  elif alias in ('var_first', 'shared_var_first', 'dict_first'):
+  elif alias in ('var_first', 'shared_var_first', 'dict_first', 'var_last', 'dict_last'):
     import jax.numpy as jnp
     C = G.classes()
     own = [v for _, v in G.ref_leaves(roots[0]) if G._is_var(v)]
-    if alias == 'var_first' or (alias == 'shared_var_first' and not own):
+    if alias in ('var_first', 'var_last') or (alias == 'shared_var_first' and not own):
       first = C['Param'](jnp.asarray([3.0, -4.0]))
     elif alias == 'shared_var_first':
       first = own[-1]
     else:
       first = {'b': C['Param'](jnp.asarray([3.0, -4.0])), 'a': C['BatchStat'](jnp.asarray([0.5, 0.25]))}
-    roots.insert(0, first)
+    if alias.endswith('_last'):
+      roots.append(first)
+    else:
+      roots.insert(0, first)
   return roots
 
 
@@ -381,20 +384,28 @@ def check_same_outcome(ctx, tag, args_e, args_t, corr, out_e, out_t, desc, check
     bad = [p for p, i in ie.items() if i in corr and it.get(p) != corr[i]]
     ctx.check(not bad, 'return:original_object_returned_as_copy:' + tag, lambda: dict(case=desc, paths=bad[:4]))
   # the caller's original objects (also those detached from the arguments during the call) carry the same values on both sides
-  # (an object that the function detached and that is reachable neither from an argument nor from the returned value cannot be
-  # tracked by any transform; only objects still reachable on the eager side are compared)
+  # (an object that the function detached and that is reachable neither from an argument nor from the returned value is judged
+  # under its own mechanism: the transforms propagate state through the argument graph at exit, see known finding C04-detached)
   reach = set()
   for a_e in args_e:
     reach.update(G.identities(a_e).values())
   if ne is not None:
     reach.update(G.identities(ne).values())
   for (objs_e, objs_t) in corr.get('__keepalive__', []):
-    ok = True
+    ok = ok_detached = True
     for oe, ot in zip(objs_e, objs_t):
-      if G._is_var(oe) and G._is_var(ot) and id(oe) in reach:
-        ok = ok and np.allclose(np.asarray(oe.value), np.asarray(ot.value), **core.TOL_SAME_PROGRAM)
+      if G._is_var(oe) and G._is_var(ot):
+        same = np.allclose(np.asarray(oe.value), np.asarray(ot.value), **core.TOL_SAME_PROGRAM)
+        if id(oe) in reach:
+          ok = ok and same
+        else:
+          # an original object that the function detached from every argument and did not return: the caller may still hold it
+          ok_detached = ok_detached and same
     if not ok:
       ctx.check(False, 'state:caller_original_object_stale:' + tag, lambda: dict(case=desc))
+      break
+    if not ok_detached:
+      ctx.check(False, 'state:detached_object_update_lost:' + tag.split(':')[0], lambda: dict(case=desc))
       break
   else:
     ctx.check(True, 'state:originals')
@@ -437,7 +448,9 @@ def case_jit_like(ctx, rng, kind, desc_base):
   import jax.numpy as jnp
   specs, alias = gen_specs(rng)
   if kind == 'cached_partial' and alias in ('var_first', 'shared_var_first', 'dict_first'):
-    alias = 'none'  # cached_partial caches graph nodes; bare Variables / containers of Variables are not in its documented domain
+    # cached_partial caches graph nodes ("cached_args: ... containing the graph nodes to cache"); a bare Variable / a dict of Variables
+    # is passed as one of the remaining (non-cached) arguments instead
+    alias = 'dict_last' if alias == 'dict_first' else 'var_last'
   # cached_partial documents that the final structure of graph nodes must be the same after each call: value-only programs there
   structural = rng.random() < 0.7 and kind != 'cached_partial'
   ret_kind = rng.choice(['scalar', 'scalar', 'node', 'both', 'wrap'] if structural else ['scalar', 'scalar', 'node', 'both'])
@@ -464,7 +477,7 @@ def case_jit_like(ctx, rng, kind, desc_base):
     tf = nnx.remat(f)
     call_t = lambda x: tf(*args_t, x)
   else:  # cached_partial(jit)
-    n_cached = 1 if alias in ('none', 'var_first', 'dict_first') else len(args_t)
+    n_cached = 1 if alias in ('none', 'var_last', 'dict_last') else len(args_t)
     tf = nnx.cached_partial(nnx.jit(f), *args_t[:n_cached])
     rest = args_t[n_cached:]
     call_t = lambda x: tf(*rest, x)
@@ -521,7 +534,7 @@ def case_control_flow(ctx, rng, kind, desc_base):
   from flax import nnx
   import jax.numpy as jnp
   specs, alias = gen_specs(rng)
-  if kind in ('while_loop', 'fori_loop') and alias not in ('none', 'var_first', 'dict_first'):
+  if kind in ('while_loop', 'fori_loop') and alias not in ('none', 'var_first', 'dict_first', 'var_last', 'dict_last'):
     alias = 'none'
   desc = dict(desc_base, alias=alias)
   x = jnp.asarray([0.5, -1.0])
